@@ -191,19 +191,7 @@ func check(cfg *Config, prop string, writeEvidence bool) int {
 		for pos := range r.UnwindFail {
 			inconc = append(inconc, fmt.Sprintf("%s: unwinding assertion failed at %s (bound %d)", r.H.Name, pos, r.H.Unwind))
 		}
-		// vacuity
-		for _, id := range r.ExpectedIDs {
-			if st, ok := r.Obls[id]; !ok || st.Reached == 0 {
-				if len(r.Errors) == 0 {
-					inconc = append(inconc, fmt.Sprintf("%s: assertion %q never reached (vacuous harness)", r.H.Name, id))
-				}
-			}
-		}
-		for _, id := range r.ExpectedReach {
-			if r.Reaches[id] == 0 && len(r.Errors) == 0 {
-				inconc = append(inconc, fmt.Sprintf("%s: reachability witness %q never reached (vacuous harness)", r.H.Name, id))
-			}
-		}
+		// vacuity is judged per property below (harnesses may share a parametrised body)
 		seenNew := map[string]bool{}
 		for _, c := range r.Candidates {
 			if c.Known != nil {
@@ -227,6 +215,42 @@ func check(cfg *Config, prop string, writeEvidence bool) int {
 				logf("  violation: harness=%s assertion=%s at %s %s model=%v classes=%v\n", c.Harness, c.OblID, c.Pos, c.Msg, c.ModelSummary(), c.Classes)
 			default:
 				inconc = append(inconc, fmt.Sprintf("%s: candidate counter-example for %s at %s did not replay (%s): model=%v", c.Harness, c.OblID, c.Pos, c.Replay, c.ModelSummary()))
+			}
+		}
+	}
+	// vacuity: every assertion id / reachability witness that appears in the harness code must have
+	// been reached under a satisfiable path condition by at least one harness of this property
+	reachedA, reachedR := map[string]bool{}, map[string]bool{}
+	anyErr := false
+	for _, r := range results {
+		if len(r.Errors) > 0 {
+			anyErr = true
+		}
+		for id, st := range r.Obls {
+			if st.Reached > 0 {
+				reachedA[id] = true
+			}
+		}
+		for id, n := range r.Reaches {
+			if n > 0 {
+				reachedR[id] = true
+			}
+		}
+	}
+	if !anyErr {
+		seenV := map[string]bool{}
+		for _, r := range results {
+			for _, id := range r.ExpectedIDs {
+				if !reachedA[id] && !seenV["a"+id] {
+					seenV["a"+id] = true
+					inconc = append(inconc, fmt.Sprintf("%s: assertion %q never reached (vacuous harness)", r.H.Name, id))
+				}
+			}
+			for _, id := range r.ExpectedReach {
+				if !reachedR[id] && !seenV["r"+id] {
+					seenV["r"+id] = true
+					inconc = append(inconc, fmt.Sprintf("%s: reachability witness %q never reached (vacuous harness)", r.H.Name, id))
+				}
 			}
 		}
 	}
